@@ -96,6 +96,94 @@ def audit(prop: str, timeout: int = 900) -> dict:
     return res
 
 
+# ------------------------------------------------------------- generated model (translator) gate
+# properties whose theorem files contain `..._code_...` theorems about BBGen (the translation of the Python sources)
+GEN_PROPS = {"C02", "C03", "C04", "C10", "C11", "C12"}
+
+
+def _lean_env() -> dict:
+    r = subprocess.run(["lake", "env", "printenv", "LEAN_PATH"], cwd=LEAN, capture_output=True, text=True, timeout=120)
+    env = dict(os.environ)
+    env["LEAN_PATH"] = r.stdout.strip()
+    return env
+
+
+def _enclosing_decl(src: str, line: int) -> str:
+    name = "?"
+    for i, l in enumerate(src.splitlines(), 1):
+        if i > line:
+            break
+        m = re.match(r"^(?:theorem|def|lemma|example)\s+([A-Za-z0-9_.']+)", l)
+        if m:
+            name = m.group(1)
+    return name
+
+
+def gen_gate(prop: str, timeout: int = 1500) -> dict:
+    """Re-translate the Python sources of the repository under test (tools/py2lean.py).  If the text equals the
+    committed lean/BBGen/Gen.lean, the theorems built by `lake build` are about this very code.  Otherwise the
+    regenerated model, BBProofs/GenEq.lean and the property file are re-checked in a scratch directory
+    (nothing in /verif is rewritten): a harmless rewrite of the Python code passes, anything else names the
+    theorem that no longer closes."""
+    repo = os.environ.get("BBLEAN_REPO", "/repo")
+    res = {"applies": True, "ok": False, "same_as_committed": False, "stage": "translate", "log": "", "broken": []}
+    r = subprocess.run([sys.executable, str(VERIF / "tools" / "py2lean.py"), "--repo", repo],
+                       capture_output=True, text=True, timeout=120)
+    if r.returncode != 0:
+        res["log"] = r.stderr[-2000:]
+        res["broken"] = ["translator: " + r.stderr.strip().splitlines()[-1][:300] if r.stderr.strip() else "translator failed"]
+        return res
+    committed = (LEAN / "BBGen" / "Gen.lean").read_text()
+    if r.stdout == committed:
+        res.update(ok=True, same_as_committed=True, stage="identical")
+        return res
+    import shutil
+    import tempfile
+    scratch = Path(tempfile.mkdtemp(prefix="bbgen-", dir=os.environ.get("VERIF_SCRATCH", "/var/tmp")))
+    try:
+        env = _lean_env()
+        env["LEAN_PATH"] = f"{scratch}:{env['LEAN_PATH']}"
+        (scratch / "BBGen").mkdir()
+        (scratch / "BBProofs").mkdir()
+        (scratch / "BBProps").mkdir()
+        (scratch / "BBGen" / "Gen.lean").write_text(r.stdout)
+        chain = [("BBGen/Gen.lean", scratch / "BBGen" / "Gen.lean"),
+                 ("BBProofs/GenEq.lean", LEAN / "BBProofs" / "GenEq.lean"),
+                 (f"BBProps/{prop}.lean", LEAN / "BBProps" / f"{prop}.lean")]
+        for rel, srcp in chain:
+            res["stage"] = rel
+            out = scratch / rel.replace(".lean", ".olean")
+            rr = subprocess.run(["lean", "-o", str(out), str(srcp)], cwd=LEAN, env=env, capture_output=True, text=True,
+                                timeout=timeout)
+            if rr.returncode != 0:
+                txt = rr.stdout + rr.stderr
+                res["log"] = txt[-3000:]
+                src = srcp.read_text()
+                lines = sorted({int(m.group(1)) for m in re.finditer(r":(\d+):\d+: error", txt)})
+                res["broken"] = sorted({f"{rel}: {_enclosing_decl(src, ln)}" for ln in lines}) or [rel]
+                return res
+        # axioms of the property theorems against the regenerated model
+        names = theorems_of(prop)
+        probe = scratch / "audit.lean"
+        probe.write_text(f"import BBProps.{prop}\nopen BB\n" + "".join(f"#print axioms {n}\n" for n in names))
+        rr = subprocess.run(["lean", str(probe)], cwd=LEAN, env=env, capture_output=True, text=True, timeout=timeout)
+        out = rr.stdout + rr.stderr
+        bad = []
+        for m in re.finditer(r"'(\S+)' depends on axioms: \[([^\]]*)\]", out, flags=re.S):
+            ax = {a.strip() for a in m.group(2).replace("\n", " ").split(",") if a.strip()}
+            if not ax <= ALLOWED_AXIOMS:
+                bad.append(f"{m.group(1)}: {sorted(ax - ALLOWED_AXIOMS)}")
+        if rr.returncode != 0 or bad:
+            res["stage"] = "axioms"
+            res["log"] = out[-2000:]
+            res["broken"] = bad or ["axiom audit failed"]
+            return res
+        res.update(ok=True, stage="re-checked against the regenerated model")
+        return res
+    finally:
+        shutil.rmtree(scratch, ignore_errors=True)
+
+
 def leanchecker(mods: list[str], timeout: int = 1800) -> tuple[bool, str]:
     r = subprocess.run(["lake", "env", "leanchecker", *mods], cwd=LEAN, capture_output=True, text=True, timeout=timeout)
     return r.returncode == 0, (r.stdout + r.stderr)[-2000:]
@@ -150,6 +238,9 @@ def main(prop: str, suites, level_rule: str, extra_trusted: list[str] | None = N
     ap.add_argument("--tier", default=os.environ.get("VERIF_TIER", "quick"), choices=["quick", "thorough"])
     ap.add_argument("--replay", default=None)
     ap.add_argument("--skip-proof", action="store_true", help="debugging only")
+    ap.add_argument("--gen-only", action="store_true",
+                    help="evaluation of seeded changes on scratch copies: skip lake build / audit (the Lean sources did not "
+                         "change) but re-translate the Python sources and re-check the generated model")
     a = ap.parse_args(sys.argv[2:])
     seed = int(os.environ.get("VERIF_SEED", "0"))
     if a.replay:
@@ -168,7 +259,15 @@ def main(prop: str, suites, level_rule: str, extra_trusted: list[str] | None = N
     # 1. proof gate -------------------------------------------------------------------
     gate = {"built": False, "scan": [], "audit": None}
     gate_ok = True
-    if not a.skip_proof:
+    if a.gen_only and not a.skip_proof:
+        a.skip_proof = True
+        if prop in GEN_PROPS:
+            try:
+                gate["gen"] = gen_gate(prop)
+                gate_ok = gate["gen"]["ok"]
+            except subprocess.TimeoutExpired:
+                infra_error = "generated-model gate timed out"
+    elif not a.skip_proof:
         try:
             ok, log = lake_build()
             gate["built"] = ok
@@ -176,6 +275,9 @@ def main(prop: str, suites, level_rule: str, extra_trusted: list[str] | None = N
             gate["scan"] = scan_sources()
             gate["audit"] = audit(prop)
             gate_ok = ok and not gate["scan"] and gate["audit"]["ok"]
+            if prop in GEN_PROPS:
+                gate["gen"] = gen_gate(prop)
+                gate_ok = gate_ok and gate["gen"]["ok"]
             if gate_ok and a.tier == "thorough":
                 mods = proof_modules or [f"BBProps.{prop}"]
                 ok2, log2 = leanchecker(mods)
@@ -213,11 +315,13 @@ def main(prop: str, suites, level_rule: str, extra_trusted: list[str] | None = N
             violations.append(f"VIOLATION property={prop} replay={path}")
     unknown_failures = bool(violations)
     if not unknown_failures:
-        if not gate_ok and not a.skip_proof and infra_error is None:
+        if not gate_ok and (not a.skip_proof or a.gen_only) and infra_error is None:
             path = write_replay(prop, {"property": prop, "kind": "broken-proof", "seed": seed, "tier": a.tier,
                                        "theorems_missing": gate["audit"]["missing"] if gate["audit"] else None,
                                        "theorems_dirty": gate["audit"]["dirty"] if gate["audit"] else None,
                                        "forbidden_tokens": gate["scan"], "built": gate["built"],
+                                       "generated_model": gate.get("gen"),
+                                       "theorems_broken_against_regenerated_model": (gate.get("gen") or {}).get("broken"),
                                        "log": (gate.get("build_log_tail") or (gate["audit"] or {}).get("log", ""))[-3000:]})
             violations.append(f"VIOLATION property={prop} replay={path} no-failing-input-found")
         for name, dis in disagreements:
@@ -242,14 +346,16 @@ def main(prop: str, suites, level_rule: str, extra_trusted: list[str] | None = N
             "proof_gate": {"built": gate["built"], "forbidden_tokens": gate["scan"],
                            "axioms_clean": gate["audit"]["clean"] if gate["audit"] else [],
                            "axioms_dirty": gate["audit"]["dirty"] if gate["audit"] else {},
-                           "leanchecker": gate.get("leanchecker")},
+                           "leanchecker": gate.get("leanchecker"),
+                           "generated_model": {k: v for k, v in (gate.get("gen") or {"applies": False}).items() if k != "log"}},
         },
         "assumptions": assumptions or [],
         "wall_s": round(wall, 2),
         "violations": len(violations),
     }
-    (OUT / "evidence").mkdir(exist_ok=True, parents=True)
-    (OUT / "evidence" / f"{prop}.json").write_text(json.dumps(ev, indent=1, default=str))
+    evdir = OUT / ("evidence-debug" if (a.skip_proof and OUT == VERIF) else "evidence")
+    evdir.mkdir(exist_ok=True, parents=True)
+    (evdir / f"{prop}.json").write_text(json.dumps(ev, indent=1, default=str))
 
     for line in known_lines:
         print(line)
